@@ -328,7 +328,7 @@ func (g *Gen) versSynth(p *prng, name string, f *family) [][2]string {
 	clean := func(s string) string { return strings.TrimSpace(s) }
 	n := p.rng(1, 4)
 	if p.chance(1, 4) {
-		n = p.rng(8, 14) // long constraint lists take their own paths
+		n = p.rng(8, 26) // long constraint lists take their own paths
 	}
 	var parts []string
 	var used []string
@@ -475,6 +475,11 @@ func (g *Gen) colliders(p *prng, name string, ranges bool, n int) []string {
 	if len(src) == 0 {
 		return nil
 	}
+	if !ranges && p.chance(1, 3) {
+		if out := g.tagColliders(p, name, n); len(out) >= 2 {
+			return out
+		}
+	}
 	h := hashFns[p.n(len(hashFns))]
 	// texts that collide under a 4096-entry mask collide under every smaller
 	// power-of-two table as well
@@ -618,4 +623,55 @@ func guardContains(e Eco, r, v any) (ok bool) {
 		}
 	}()
 	return e.Contains(r, v)
+}
+
+var hash32Fns = []func(string) uint64{hFNV1a32, hFNV1a32, hFNV132, hCRC32, hJava, func(s string) uint64 { return hDJB2(s) & 0xffffffff }}
+
+// tagColliders searches for valid version texts with EQUAL full 32-bit hashes
+// (a birthday search over ~150 000 numeric variations of corpus versions): a
+// table that trusts a 32-bit hash as the identity of its key, without comparing
+// the text, confuses exactly such a pair. Wider tags (40+ bits) are out of reach
+// of a per-run search and are a stated limit.
+func (g *Gen) tagColliders(p *prng, name string, n int) []string {
+	ec := g.class[name]
+	e := EcoByName(name)
+	if len(ec.versions) == 0 {
+		return nil
+	}
+	h := hash32Fns[p.n(len(hash32Fns))]
+	// a few numeric skeletons: corpus versions with every digit run replaced
+	var skel []string
+	for tries := 0; tries < 40 && len(skel) < 4; tries++ {
+		s := strings.TrimSpace(pickS(p, ec.versions))
+		if len(s) > 24 || len(digitRun.FindAllString(s, -1)) < 2 {
+			continue
+		}
+		skel = append(skel, digitRun.ReplaceAllString(s, "\x00"))
+	}
+	if len(skel) == 0 {
+		return nil
+	}
+	seen := make(map[uint32]string, 1<<17)
+	var buf strings.Builder
+	for i := 0; i < 150000; i++ {
+		sk := skel[i%len(skel)]
+		buf.Reset()
+		for k := 0; k < len(sk); k++ {
+			if sk[k] == 0 {
+				buf.WriteString(strconv.Itoa(p.n(100)))
+			} else {
+				buf.WriteByte(sk[k])
+			}
+		}
+		s := buf.String()
+		k := uint32(h(s))
+		if o, ok := seen[k]; ok && o != s {
+			if tryV(e, s) && tryV(e, o) {
+				return []string{o, s}
+			}
+			continue
+		}
+		seen[k] = s
+	}
+	return nil
 }
